@@ -702,15 +702,15 @@ func allCases() []*caseT {
 				},
 			}})
 	}
-	add("wasmplugin-multi", "same-phase-and-priority", func() (cfgs, cfgs) {
+	add("trafficextension-multi", "same-phase-and-priority", func() (cfgs, cfgs) {
 		base := cfgs{selfSE(), gw1(), svc("ns1", "h1", h1, "10.10.1")}
 		pc := func(n string) map[string]any { return map[string]any{"k-d": n, "k-a": "1", "k-c": "2", "k-b": "3"} }
 		return base, cfgs{
-			wasm("ns1", "wasm-b", kv("app", "a"), extensions.PluginPhase_AUTHN, 10, pc("b")),
-			wasm("ns1", "wasm-a", kv("app", "a"), extensions.PluginPhase_AUTHN, 10, pc("a")),
-			wasm("istio-system", "wasm-root", nil, extensions.PluginPhase_AUTHN, 10, pc("root")),
-			wasm("ns1", "wasm-stats", nil, extensions.PluginPhase_STATS, 10, nil),
-			wasm("istio-system", "wasm-unspec", nil, extensions.PluginPhase_UNSPECIFIED_PHASE, 10, pc("u")),
+			trafficExt("ns1", "wasm-b", kv("app", "a"), extensions.TrafficExtension_AUTHN, 10, pc("b"), ""),
+			trafficExt("ns1", "wasm-a", kv("app", "a"), extensions.TrafficExtension_AUTHN, 10, pc("a"), ""),
+			trafficExt("istio-system", "wasm-root", nil, extensions.TrafficExtension_AUTHN, 10, pc("root"), ""),
+			trafficExt("ns1", "lua-stats", nil, extensions.TrafficExtension_STATS, 10, nil, "-- stats"),
+			trafficExt("istio-system", "lua-unspec", nil, extensions.TrafficExtension_UNSPECIFIED, 10, nil, "-- unspecified"),
 		}
 	})
 
@@ -776,5 +776,5 @@ func allCases() []*caseT {
 		}
 	})
 
-	return cs
+	return append(cs, moreCases()...)
 }
